@@ -145,4 +145,50 @@ def lazyRun (copyBeforeSet : Bool) (lazyTtl : Int) (staleTtl : UInt32) (chain : 
     | .fresh m => .fresh m :: lazyRun copyBeforeSet lazyTtl staleTtl chain it ts
     | .stale m => .stale m :: lazyRun copyBeforeSet lazyTtl staleTtl chain (refresh copyBeforeSet lazyTtl staleTtl it chain t) ts
 
+/-! Ownership of the record objects (`copyNoOpt` on the store path, `v.resp.Copy()` on the hit path).
+
+A record is an object that the stored message and the reply travelling on through the query context may or
+may not share. Whoever holds the reply after the plugin returned (a `ttl` plugin behind `exec: $sequence`, a
+wrapper plugin in front of the cache, the server) may rewrite its records in place. -/
+
+/-- One entry's history after it was stored: in-place rewrites of the records of the reply the plugin handed
+on last (first: the reply of the miss that stored the entry), and queries. -/
+inductive Ev where
+  | rewrite (f : RR → RR)
+  | hit (t : Nat)
+
+/-- What an in-place rewrite of the live reply does to the entry: nothing, unless the records are shared. -/
+def liveRewrite (aliased : Bool) (f : RR → RR) (it : Item) : Item :=
+  if aliased then { it with msg := it.msg.mapRR f } else it
+
+/-- `storeCopies = true`, `hitCopies = true` is the code as written: `copyNoOpt` stores `dns.Copy` of every
+record, a hit works on and hands out `v.resp.Copy()`. The flag carried along says whether the live reply
+shares its records with the entry. With `hitCopies = false` the hit's own TTL arithmetic is done on the
+stored records. The run ends with the first miss (the client's query then goes upstream and a new entry is
+stored); refreshes are the subject of `lazyRun`, not of this run. -/
+def aliasRun (storeCopies hitCopies lazy : Bool) (staleTtl : UInt32) : Bool → Item → List Ev → List Served
+  | _, _, [] => []
+  | al, it, .rewrite f :: es => aliasRun storeCopies hitCopies lazy staleTtl al (liveRewrite al f it) es
+  | al, it, .hit t :: es =>
+    match serve lazy staleTtl it t t with
+    | .miss => [.miss]
+    | .fresh m => .fresh m :: aliasRun storeCopies hitCopies lazy staleTtl (!hitCopies) (if hitCopies then it else { it with msg := m }) es
+    | .stale m => .stale m :: aliasRun storeCopies hitCopies lazy staleTtl (!hitCopies) (if hitCopies then it else { it with msg := m }) es
+
+/-- The same queries on an entry nobody touches. -/
+def hitsOnly (lazy : Bool) (staleTtl : UInt32) (it : Item) : List Ev → List Served
+  | [] => []
+  | .rewrite _ :: es => hitsOnly lazy staleTtl it es
+  | .hit t :: es =>
+    match serve lazy staleTtl it t t with
+    | .miss => [.miss]
+    | .fresh m => .fresh m :: hitsOnly lazy staleTtl it es
+    | .stale m => .stale m :: hitsOnly lazy staleTtl it es
+
+/-- `ttl` plugin rewrites, per record: `dnsutils.ApplyMinimalTTL` then `ApplyMaximumTTL` (0 = off). -/
+def clampRR (lo hi : UInt32) (r : RR) : RR :=
+  if r.isOpt then r else
+  let t := if lo > 0 ∧ r.ttl < lo then lo else r.ttl
+  { r with ttl := if hi > 0 ∧ t > hi then hi else t }
+
 end Model.C05
